@@ -1,7 +1,7 @@
 CONFIG = dict(
         level='proof',
         streams=[dict(harness='c12', driver='c12', shrink_field='items')],
-        rule='three kinds of cases in one stream.  pipe: a declared history (commits with parents, author, tick, complete file contents, file modes) is written '
+        rule='four kinds of cases in one stream.  pipe: a declared history (commits with parents, author, tick, complete file contents, file modes) is written '
              'into an in-memory git repository and analysed by the REAL pipeline (hercules.NewPipeline, DeployItem DevsAnalysis + CommitsAnalysis + a '
              'recording item, Initialize, Run) with ConsiderEmptyCommits on/off, the rename threshold set/unset, Pipeline.HibernationDistance 0 (fact absent / '
              'present) or 1..4 in half of the cases, Pipeline.PrintActions / Pipeline.DumpPlan in one case out of eight; generators: every history of <=4 commits '
@@ -22,7 +22,19 @@ CONFIG = dict(
              'and <=4), random arbitrary and canonical change lists incl. binary blobs, files without final newline, multi-byte runes, large counts, '
              'repeated entries, merge steps; large inputs (kind direct-scale): edits and inserted / deleted files of 2^8, 2^10, 2^15, 2^16 lines -1/+0/+1 and 10^5 '
              '(thorough 2^20), canonical scripts of 10^3 and 10^4 (thorough 10^5, 10^6) edits with counts of period 2, 7, 8, 9, 63, 64, 65.  '
-             'Non-trivial = pipe / scale case with >=3 commits or direct case with a script of >=2 edits; distinct = distinct '
+             'reuse (round 3, object re-use): 2-3 analyses one after the other, each with a NEW hercules.Pipeline into which the SAME DevsAnalysis instance (and in half of '
+             'the cases the same CommitsAnalysis instance) is deployed, then Initialize and Run: on the same history again, on a prefix of it (the history grew / shrank '
+             'between the analyses), on a variant with other hashes (another repository), with ConsiderEmptyCommits and the hibernation distance changing from analysis '
+             'to analysis; in one analysis of six (not the last) the recording item returns an error half way (error path: the state the leaf items hold is read with '
+             'Finalize and compared with the model, then the items are used again); every analysis is judged exactly like a first one by all oracles and compared with '
+             'the model started from its initial state (the fresh-instance twin); after the last analysis the results handed out by the earlier ones are serialised '
+             'again and judged again when they changed (aliasing).  Generators: every history of <=3 commits twice / prefix-then-all, every history of 4 (thorough 5) '
+             'commits with a commit of several parents, random histories of the pipe kinds, segment shapes, two long ones (1100 diamonds = more than 2^10 merges '
+             'remembered; octopus + comb with a failing first analysis; thorough 10^4 diamonds).  Further input attributes since round 3: a people dictionary given '
+             'from outside that does not know every developer (AuthorMissing is the author of commits, merges included; field pd), two files of one commit with the '
+             'same content (two changes of one commit reaching one blob).  '
+             'Non-trivial = pipe / scale / reuse case with >=3 commits or direct case with a script of >=2 edits; distinct = distinct '
+
              'declared input (history / segments / change list + options).',
         exhaustive_note='diff scripts over {equal, insert, delete} x counts {1,2,3} up to length 4 (quick) / 5 (thorough) and x counts {0,1,2,5} up to length 3 / 4 '
                         'enumerated completely through LinesStatsCalculator.Consume; every history of <=4 (thorough 5) commits with <=3 parents per commit, own content '
